@@ -90,6 +90,110 @@ def v3_public():
         dev_deps=DEV, harnesses=hs, assumptions=[A_SHA, A_P384, A_RNG, A_PAE], trusted=TRUSTED,
     )
 
+ALL = dict(SYM, **{"p384": "models/p384", "pbkdf2": "models/pbkdf2"})
+PIE = "paseto-v3/src/core/pie_wrap.rs"
+PBKW = "paseto-v3/src/core/pw_wrap.rs"
+PKE = "paseto-v3/src/core/pke.rs"
+MOD = "paseto-v3/src/core/mod.rs"
+CTR_NOTE = "two/three AES blocks: counter-width obligation"
+
+
+def v3_pie():
+    fl = [f"{PIE}::{f}" for f in ("pie_wrap_key", "pie_unwrap_key", "wrap_keys", "kdf", "auth")]
+    hs = [
+        Harness("wrap_is_spec_16", ["C07", "C05"], complete=False, bound="|key data|=16 (one AES block; not a key length)", functions=fl),
+        Harness("wrap_is_spec_32", ["C07", "C05"], complete=False, bound=f"local key (32 bytes; {CTR_NOTE})", functions=fl),
+        Harness("wrap_is_spec_48", ["C07", "C05"], complete=False, bound=f"secret key (48 bytes; {CTR_NOTE})", functions=fl),
+        Harness("unwrap_accepts_spec_16", ["C07", "C05"], complete=False, bound="|key data|=16 (one AES block; not a key length)", functions=fl),
+        Harness("unwrap_accepts_spec_32", ["C07", "C05"], complete=False, bound=f"local key (32 bytes; {CTR_NOTE})", functions=fl),
+        Harness("unwrap_accepts_spec_48", ["C07", "C05"], complete=False, bound=f"secret key (48 bytes; {CTR_NOTE})", functions=fl),
+        Harness("roundtrip_32", ["C05", "C16"], complete=False, bound="local key", functions=fl),
+        Harness("roundtrip_48", ["C05", "C16"], complete=False, bound="secret key", functions=fl),
+        Harness("unwrap_rejects_tamper_32", ["C06"], complete=False, bound="local key; flip position and bit symbolic", functions=fl, timeout=1800),
+        Harness("unwrap_rejects_tamper_48", ["C06"], complete=False, bound="secret key; flip position and bit symbolic", functions=fl, timeout=1800),
+        Harness("wrap_fail_closed_h", ["C16"], functions=fl),
+        Harness("canary_inputs_h", ["C05", "C06", "C07", "C16"], expect="fail"),
+    ]
+    for n in (0, 47, 79, 80, 113):
+        hs.append(Harness(f"unwrap_short_{n}", ["C04"], complete=False, bound=f"blob length {n}", functions=[f"{PIE}::pie_unwrap_key"]))
+    return Unit(
+        name="v3_pie", members=["paseto-core", "paseto-v3"], package="paseto-v3",
+        inject=[(PIE, ["units/common/pae_stub.rs", "units/v3/pie.rs"])],
+        patches=SYM, harness_path="core::pie_wrap::verif",
+        kani_flags=FLAGS, no_default_features=True, features=["pie-wrap"],
+        dev_deps=DEV, harnesses=hs, assumptions=[A_HMAC, "unwrap_rejects_tamper_*, other-wrapping-key case only: HMAC-SHA384 truncated to 256 bits (the k3 PIE authentication key) is collision-free on the explored inputs", A_AES, A_RNG], trusted=TRUSTED,
+    )
+
+
+def v3_pbkw():
+    fl = [f"{PBKW}::{f}" for f in ("pw_wrap_key", "pw_unwrap_key", "get_params", "wrap_keys", "kdf", "auth")]
+    hs = [
+        Harness("wrap_is_spec_16_default", ["C07", "C05"], complete=False, bound="|key data|=16 (one AES block; not a key length), |pw|=2, default parameters", functions=fl),
+        Harness("wrap_is_spec_32_default", ["C07", "C05"], complete=False, bound=f"local key ({CTR_NOTE}), |pw|=2, default parameters", functions=fl),
+        Harness("wrap_is_spec_48_custom", ["C07", "C05"], complete=False, bound=f"secret key ({CTR_NOTE}), |pw|=1, any iteration count >= 1", functions=fl),
+        Harness("unwrap_accepts_spec_16", ["C07", "C05"], complete=False, bound="|key data|=16 (one AES block), |pw|=2, any iteration count >= 1", functions=fl),
+        Harness("unwrap_accepts_spec_32", ["C07", "C05"], complete=False, bound=f"local key ({CTR_NOTE}), |pw|=2, any iteration count >= 1", functions=fl),
+        Harness("unwrap_accepts_spec_48", ["C07", "C05"], complete=False, bound=f"secret key ({CTR_NOTE}), empty password, any iteration count >= 1", functions=fl),
+        Harness("roundtrip_32_default", ["C05", "C16"], complete=False, bound="local key, |pw|=2, default parameters", functions=fl),
+        Harness("roundtrip_48_custom", ["C05", "C16"], complete=False, bound="secret key, empty password, any iteration count", functions=fl),
+        Harness("unwrap_rejects_tamper_32", ["C06"], complete=False, bound="local key, |pw|=2; flip position and bit symbolic", functions=fl, timeout=1800),
+        Harness("unwrap_rejects_tamper_48", ["C06"], complete=False, bound="secret key, |pw|=1; flip position and bit symbolic", functions=fl, timeout=1800),
+        Harness("wrap_fail_closed_h", ["C16"], functions=fl),
+        Harness("canary_inputs_h", ["C05", "C06", "C07", "C16"], expect="fail"),
+    ]
+    for n in (0, 51, 52, 99, 100, 133):
+        hs.append(Harness(f"unwrap_short_{n}", ["C04"], complete=False, bound=f"blob length {n}, any parameter block", functions=[f"{PBKW}::pw_unwrap_key", f"{PBKW}::get_params"]))
+    return Unit(
+        name="v3_pbkw", members=["paseto-core", "paseto-v3"], package="paseto-v3",
+        inject=[(PBKW, ["units/common/pae_stub.rs", "units/v3/pbkw.rs"])],
+        patches=dict(SYM, pbkdf2="models/pbkdf2"), harness_path="core::pw_wrap::verif",
+        kani_flags=FLAGS, no_default_features=True, features=["pbkw"],
+        dev_deps=DEV, harnesses=hs, assumptions=[A_PBKDF, A_SHA, A_HMAC, A_AES, A_RNG], trusted=TRUSTED,
+    )
+
+
+def v3_pke():
+    fl = [f"{PKE}::{f}" for f in ("seal_key", "unseal_key")]
+    B = "32-byte data key (two AES blocks: counter-width obligation)"
+    hs = [
+        Harness("seal_is_spec_h", ["C07", "C05"], complete=False, bound=f"{B}; ephemeral draw assumed in 1..n-1", functions=fl),
+        Harness("unseal_accepts_spec_h", ["C07", "C05"], complete=False, bound=B, functions=fl),
+        Harness("roundtrip_h", ["C05", "C16"], complete=False, bound="ephemeral draw assumed in 1..n-1", functions=fl),
+        Harness("unseal_rejects_tamper_h", ["C06"], complete=False, bound="flip position and bit symbolic", functions=fl, timeout=1800),
+        Harness("seal_fail_closed_h", ["C16"], complete=False, bound="ephemeral draw assumed in 1..n-1 (retry loop: v3_public::secret_key_random_h)", functions=fl),
+        Harness("pke_key_codec_h", ["C08"], functions=[f"{PKE}::decode", f"{PKE}::encode"]),
+        Harness("pke_secret_key_codec_h", ["C08"], functions=[f"{PKE}::decode", f"{PKE}::encode"]),
+        Harness("canary_inputs_h", ["C05", "C06", "C07", "C16"], expect="fail"),
+    ]
+    for n in (0, 47, 96, 97, 128, 129, 130):
+        hs.append(Harness(f"unseal_len_{n}", ["C04", "C06"], complete=False, bound=f"blob length {n}", functions=[f"{PKE}::unseal_key"]))
+    return Unit(
+        name="v3_pke", members=["paseto-core", "paseto-v3"], package="paseto-v3",
+        inject=[(PKE, ["units/common/pae_stub.rs", "units/v3/pke.rs"])],
+        patches=dict(SYM, p384="models/p384"), harness_path="core::pke::verif",
+        kani_flags=FLAGS, no_default_features=True, features=["pke"],
+        dev_deps=DEV, harnesses=hs, assumptions=[A_P384, A_SHA, A_HMAC, A_AES, A_RNG], trusted=TRUSTED,
+    )
+
+
+def v3_id():
+    fl = [f"{MOD}::hash_key"]
+    hs = [
+        Harness("id_is_spec_52", ["C13"], complete=False, bound="PASERK text of 52 bytes (k3.local.*), all three id kinds", functions=fl),
+        Harness("id_is_spec_74", ["C13"], complete=False, bound="PASERK text of 74 bytes (k3.secret.*)", functions=fl),
+        Harness("id_is_spec_76", ["C13"], complete=False, bound="PASERK text of 76 bytes (k3.public.*)", functions=fl),
+        Harness("id_is_spec_1", ["C13"], complete=False, bound="text of 1 byte", functions=fl),
+        Harness("id_domain_separated_h", ["C13"], complete=False, bound="text of 10 bytes", functions=fl),
+        Harness("canary_inputs_h", ["C13"], expect="fail"),
+    ]
+    return Unit(
+        name="v3_id", members=["paseto-core", "paseto-v3"], package="paseto-v3",
+        inject=[(MOD, ["units/common/pae_stub.rs", "units/v3/id.rs"])],
+        patches={"sha2": "models/sha2"}, harness_path="core::verif",
+        kani_flags=FLAGS, no_default_features=True, features=["id"],
+        dev_deps=DEV, harnesses=hs, assumptions=[A_SHA], trusted=TRUSTED,
+    )
+
 
 def units():
-    return [v3_local(), v3_public()]
+    return [v3_local(), v3_public(), v3_pie(), v3_pbkw(), v3_pke(), v3_id()]
